@@ -78,6 +78,14 @@ func (o op) line() string {
 		return fmt.Sprintf("f.rename %d %s %d %s", o.Fd, o.Path, o.Fd2, o.Path2)
 	case "ls":
 		return fmt.Sprintf("f.ls %d", o.Fd)
+	case "settimes":
+		return fmt.Sprintf("f.settimes %d %d", o.Fd, o.Off)
+	case "mtime":
+		return fmt.Sprintf("f.mtime %d", o.Fd)
+	case "psettimes":
+		return fmt.Sprintf("f.psettimes %d %s %d", o.Fd, o.Path, o.Off)
+	case "pmtime":
+		return fmt.Sprintf("f.pmtime %d %s", o.Fd, o.Path)
 	}
 	hx.Fatal("unknown op %q", o.Op)
 	return ""
@@ -159,6 +167,22 @@ func (o op) exec(g *guest, rng *rand.Rand) string {
 		return g.rename(o.Fd, o.Path, o.Fd2, o.Path2)
 	case "ls":
 		return lsGuest(g, o.Fd, rng)
+	case "settimes":
+		return g.fdSetTimes(o.Fd, uint64(o.Off))
+	case "psettimes":
+		return g.pathSetTimes(o.Fd, o.Path, uint64(o.Off))
+	case "mtime":
+		e, t := g.fdMtime(o.Fd)
+		if e != "ESUCCESS" {
+			return e
+		}
+		return fmt.Sprintf("ESUCCESS %d", t)
+	case "pmtime":
+		e, t := g.pathMtime(o.Fd, o.Path)
+		if e != "ESUCCESS" {
+			return e
+		}
+		return fmt.Sprintf("ESUCCESS %d", t)
 	}
 	hx.Fatal("unknown op %q", o.Op)
 	return ""
@@ -353,6 +377,30 @@ func (g *gen) next() op {
 			return []op{{Op: "tell", Fd: fd}, {Op: "read", Fd: fd, Len: 4}, {Op: "fstat", Fd: fd}, {Op: "close", Fd: fd}}[r.Intn(4)]
 		}
 	}
+	if r.Intn(100) < 9 {
+		// explicit modification times: set through a descriptor or a path, read back through either
+		t := int64(1_000_000_000)*int64(1+r.Intn(2_000_000_000)) + int64(r.Intn(1000))*1_000_000
+		switch r.Intn(8) {
+		case 0, 1, 2:
+			fd := g.anyFd()
+			if r.Intn(3) == 0 {
+				fd = 3
+			}
+			return op{Op: "settimes", Fd: fd, Off: t}
+		case 3:
+			// (path_filestat_set_times is outside C16's list of calls; observed in passing: without
+			// LOOKUP_SYMLINK_FOLLOW it opens the path write-only, so a directory answers EISDIR)
+			return op{Op: "settimes", Fd: g.dirFd(), Off: t}
+		case 4, 5, 6:
+			fd := g.anyFd()
+			if r.Intn(3) == 0 {
+				fd = 3
+			}
+			return op{Op: "mtime", Fd: fd}
+		default:
+			return op{Op: "pmtime", Fd: g.dirFd(), Path: randPath(r)}
+		}
+	}
 	switch x := r.Intn(100); {
 	case x < 18:
 		a := openArgs{RR: r.Intn(3) > 0, RW: r.Intn(2) == 0}
@@ -510,6 +558,9 @@ func runHistory(dir, engine string, orc *hx.Oracle, selfNoop bool, gn *gen, fixe
 		done = append(done, o)
 		want := canonAns(o, orc.Ask("c16 "+o.line()))
 		got := o.exec(g, rng)
+		if (o.Op == "mtime" || o.Op == "pmtime") && want == "ESUCCESS ?" && strings.HasPrefix(got, "ESUCCESS ") {
+			got = want // the reference does not know this time stamp (the host set it): only success is compared
+		}
 		if byName && o.Op == "ls" && stale[o.Fd] {
 			rep.Count("hist-skip:ls-on-renamed-directory-descriptor(F24)")
 			continue
